@@ -94,15 +94,23 @@ func H05() {
 				cur += string([]byte{first[i]})
 			}
 		}
-		for i := 1; i < len(lines); i++ {
+		prevTop := -1
+		for i := 0; i < len(lines); i++ {
 			for j := 0; j < i; j++ {
 				check(lines[i] != lines[j], "error lists come back with duplicates removed")
 			}
-			fa, la, ca, oka := h05Pos(lines[i-1])
-			fb, lb, cb, okb := h05Pos(lines[i])
-			if oka && okb {
-				check(fa < fb || (fa == fb && (la < lb || (la == lb && ca <= cb))), "error lists come back ordered by file, line and column")
+			// (a line that begins with a blank continues the message above it)
+			if len(lines[i]) == 0 || lines[i][0] == ' ' {
+				continue
 			}
+			if prevTop >= 0 {
+				fa, la, ca, oka := h05Pos(lines[prevTop])
+				fb, lb, cb, okb := h05Pos(lines[i])
+				if oka && okb {
+					check(fa < fb || (fa == fb && (la < lb || (la == lb && ca <= cb))), "error lists come back ordered by file, line and column")
+				}
+			}
+			prevTop = i
 		}
 	}
 }
